@@ -842,12 +842,15 @@ def run_reassign(case):
     gradient w.r.t. the tensor used in the forward call must be the same as without the reassignment (the backward works on the
     tensors saved by the forward call)."""
     import xitorch
-    from xitorch.optimize import rootfinder, equilibrium
-    from xitorch.integrate import quad, solve_ivp
+    from xitorch.optimize import rootfinder, equilibrium, minimize
+    from xitorch.integrate import quad, solve_ivp, mcquad
     from pbt.harness import xt_call
     torch.manual_seed(0)
     DT = torch.float64
     kind, fn = case["kind"], case["functional"]
+
+    def _std_normal_logp(x):
+        return -0.5 * (x * x).sum()
     n = 3
 
     def build():
@@ -879,6 +882,10 @@ def run_reassign(case):
                 return 0.5 * torch.tanh(self.A @ a[0]) + self.b
             if fn == "quad":
                 return torch.sin(self.A.reshape(-1)[:n] * a[0] + self.b)
+            if fn == "minimize":
+                return 0.5 * (a[0] * a[0]).sum() + 0.5 * torch.log(torch.cosh(self.A @ a[0])).sum() - (self.b * a[0]).sum()
+            if fn == "mcquad":
+                return torch.sin(self.A.reshape(-1)[:n] * a[0].sum() + self.b)
             return -(1.0 + self.A.diagonal() ** 2) * a[1] + self.b * torch.cos(a[0])      # solve_ivp: f(t, y)
         Mod.evaluate = evaluate
         return Mod(), g
@@ -898,6 +905,11 @@ def run_reassign(case):
             return rootfinder(obj_fcn, y0, method="broyden1", f_tol=1e-12)
         if fn == "equilibrium":
             return equilibrium(obj_fcn, y0, method="broyden1", f_tol=1e-12)
+        if fn == "minimize":
+            return minimize(obj_fcn, y0, method="broyden1", f_tol=1e-12)
+        if fn == "mcquad":
+            torch.manual_seed(case["seed"])         # `mh` draws from the global generator: both runs see the same samples
+            return mcquad(obj_fcn, _std_normal_logp, torch.zeros((1,), dtype=DT), method="mh", nsamples=12, nburnout=3)
         if fn == "quad":
             if ext:
                 xl, xu = torch.tensor(0.0, dtype=DT, requires_grad=True), torch.tensor(1.0, dtype=DT, requires_grad=True)
@@ -964,7 +976,7 @@ def run_reassign(case):
 
 @st.composite
 def reassign_st(draw, tier="quick"):
-    case = {"functional": draw(st.sampled_from(["rootfinder", "equilibrium", "quad", "solve_ivp", "solve_ivp"])), "kind": draw(st.sampled_from(["em", "nn"])),
+    case = {"functional": draw(st.sampled_from(["rootfinder", "equilibrium", "minimize", "mcquad", "quad", "quad", "solve_ivp", "solve_ivp"])), "kind": draw(st.sampled_from(["em", "nn"])),
             "which": draw(st.sampled_from(["A", "b"])), "order": draw(st.sampled_from([1, 1, 2])), "seed": draw(st.integers(0, 2 ** 31 - 1))}
     if case["functional"] in ("quad", "solve_ivp"):
         case["ext"] = draw(st.sampled_from([False, True, True]))
@@ -980,7 +992,7 @@ def tasks(tier):
         # numbers of examples of the other kinds (520 / 2000)
         Task("nesting", machine=machine, run=run_nesting, examples={"quick": 2600, "thorough": 16000},
              steps={"quick": 14, "thorough": 24}),
-        Task("reassign", strategy=reassign_st(tier), run=run_reassign, examples={"quick": 120, "thorough": 1000}),
+        Task("reassign", strategy=reassign_st(tier), run=run_reassign, examples={"quick": 160, "thorough": 1500}),
         # the expensive task last: under a wall budget cut short (loaded machine) the cheap tasks have run
         # round 4: two thin corners of the scenario space as small tasks of their own (see scenario_st), taken out of the budget of `faults`
         Task("faults_dbgflag", strategy=scenario_st(tier, focus="dbgflag"), run=run_faults, examples={"quick": 40, "thorough": 600}),
